@@ -1,4 +1,5 @@
 import OH.Proofs.EvalSpecDatedYear
+import OH.Proofs.EvalSpecDatedWide
 /-
 C01 refinement, dated ranges: the decidable class `datedSafe` (on the range and the day) under which
 the model's filter is the specification's `datedOk`, and the rule-level class `datedPlain` (no
@@ -29,17 +30,54 @@ theorem staysOn_iff (ds : DateSpec) (o : DateOffset) (after : Bool) (ys : List I
     | none => rfl
     | some p => simp only [beq_iff_eq]; exact inY_iff_year.1 (h k hk p hp)
 
+/-- `WindowOK` as a Boolean: the window `y-2 … y+2` of the implementation is adequate for day `d`:
+with `S k`, `E k` the shifted instances of the two bounds on year `k`, for the years `y-w … y+w` the
+specification looks at: `S` and `E` increase from each year to the next, `d < S (y+2)`, `d ≤ E (y+3)`,
+and some start `S k`, `k ∈ y-2 … y+1`, is at or before `d` and after `E (y-3)`. -/
+def windowOKb (s : DateSpec) (so : DateOffset) (e : DateSpec) (eo : DateOffset) (d : Int) : Bool :=
+  let y := year d
+  let w := yearSpan so eo
+  let S := projT s so true
+  let E := projT e eo false
+  (List.range (2 * w)).all (fun (i : Nat) =>
+      decide (S (y - w + i) < S (y - w + i + 1)) && decide (E (y - w + i) < E (y - w + i + 1)))
+    && decide (d < S (y + 2)) && decide (d ≤ E (y + 3))
+    && ([y - 2, y - 1, y, y + 1] : List Int).any (fun k0 => decide (S k0 ≤ d) && decide (E (y - 3) < S k0))
+
+theorem windowOKb_iff (s : DateSpec) (so : DateOffset) (e : DateSpec) (eo : DateOffset) (d : Int) :
+    windowOKb s so e eo d = true ↔
+      WindowOK (projT s so true) (projT e eo false) (year d) d (yearSpan so eo) := by
+  unfold windowOKb
+  simp only [Bool.and_eq_true, List.all_eq_true, List.mem_range, decide_eq_true_eq, List.any_eq_true,
+    List.mem_cons, List.not_mem_nil, or_false]
+  constructor
+  · rintro ⟨⟨⟨hm, a⟩, c⟩, k0, hk0, e'⟩
+    refine ⟨fun k h1 h2 => ?_, fun k h1 h2 => ?_, a, c, k0, by omega, by omega, e'.1, e'.2⟩
+    · have := (hm (k - (year d - yearSpan so eo)).toNat (by omega)).1
+      rw [show year d - (yearSpan so eo : Int) + ((k - (year d - yearSpan so eo)).toNat : Int) = k by omega] at this
+      exact this
+    · have := (hm (k - (year d - yearSpan so eo)).toNat (by omega)).2
+      rw [show year d - (yearSpan so eo : Int) + ((k - (year d - yearSpan so eo)).toNat : Int) = k by omega] at this
+      exact this
+  · intro h
+    obtain ⟨k0, a, b, c, e'⟩ := h.w4
+    exact ⟨⟨⟨fun i hi => ⟨h.monoS _ (by omega) (by omega), h.monoE _ (by omega) (by omega)⟩, h.w1⟩, h.w3⟩,
+      k0, by omega, c, e'⟩
+
 /-- The class of (dated range, day) pairs the refinement covers — decidable; `ys` are the years the
 specification looks at (`candidateYears`: around the day and around the years the bounds carry):
  * both day offsets within ±100 000 days;
  * the range has a defined meaning (`datedDefined`: not "no year … year");
- * every bound WITHOUT a year, shifted by its offset, stays inside the year it is projected on, for
-   each of the years `ys` ("year-locality"; a bound WITH a year may be shifted anywhere). -/
+ * both bounds WITHOUT a year (and not a single day): the implementation's window is adequate
+   (`windowOKb`), or — also for a single day — year-locality: every shifted instance stays inside the
+   year it is projected on, for each of the years `ys`;
+ * start WITH a year, end without: year-locality of the end; both WITH a year: nothing more. -/
 def datedSafe (s : DateSpec) (so : DateOffset) (e : DateSpec) (eo : DateOffset) (d : Int) : Bool :=
   let ys := candidateYears s e (yearSpan so eo) d
   offSmallD so && offSmallD eo &&
   (match specYear s, specYear e with
-   | none, none => staysOn s so true ys && staysOn e eo false ys
+   | none, none => (staysOn s so true ys && staysOn e eo false ys)
+        || (!(s == e && isFixedDate s) && windowOKb s so e eo d)
    | some _, none => staysOn e eo false ys
    | some _, some _ => true
    | none, some _ => false)
@@ -60,29 +98,45 @@ theorem dated_eq_of_safe (s : DateSpec) (so : DateOffset) (e : DateSpec) (eo : D
     cases hey : specYear e with
     | some ey => simp [hsy, hey] at hcls
     | none =>
-      simp only [hsy, hey, Bool.and_eq_true, staysOn_iff] at hcls
+      simp only [hsy, hey, Bool.or_eq_true, Bool.and_eq_true, staysOn_iff, Bool.not_eq_true',
+        Bool.and_eq_false_iff, windowOKb_iff] at hcls
       rw [candidateYears_yearless s e _ d hsy hey] at hcls
-      obtain ⟨cS, cE⟩ := hcls
-      by_cases hns : s = e ∧ isFixedDate s = true
-      · -- a single fixed day without a year
-        obtain ⟨rfl, hfx⟩ := hns
-        cases s with
-        | easter yr => simp [isFixedDate] at hfx
-        | fixed yr m dd =>
-          cases yr with
-          | some n => simp [specYear] at hsy
-          | none =>
-            have exact_inst : ∀ k f after, ofYmd? k m dd = some f →
-                dateInstance (.fixed none m dd) k after = some f := by
-              intro k f after hf; simp [dateInstance, hf]
-            apply dated_single_eq m dd so eo d wso hss weo hes h1 h2
-            · intro k hk1 hk2 f hf
-              exact cS k ((mem_yearsNear _ _ _).2 ⟨hk1, hk2⟩) _ (by simp [proj, exact_inst k f true hf])
-            · intro k hk1 hk2 f hf
-              exact cE k ((mem_yearsNear _ _ _).2 ⟨hk1, hk2⟩) _ (by simp [proj, exact_inst k f false hf])
-      · exact dated_yearless_eq s so e eo d hs he hsy hey hns h1 h2
-          (fun k a b p hp => cS k ((mem_yearsNear _ _ _).2 ⟨a, b⟩) p hp)
-          (fun k a b p hp => cE k ((mem_yearsNear _ _ _).2 ⟨a, b⟩) p hp)
+      rcases hcls with ⟨cS, cE⟩ | ⟨hnsb, hW⟩
+      · by_cases hns : s = e ∧ isFixedDate s = true
+        · -- a single fixed day without a year
+          obtain ⟨rfl, hfx⟩ := hns
+          cases s with
+          | easter yr => simp [isFixedDate] at hfx
+          | fixed yr m dd =>
+            cases yr with
+            | some n => simp [specYear] at hsy
+            | none =>
+              have exact_inst : ∀ k f after, ofYmd? k m dd = some f →
+                  dateInstance (.fixed none m dd) k after = some f := by
+                intro k f after hf; simp [dateInstance, hf]
+              apply dated_single_eq m dd so eo d wso hss weo hes h1 h2
+              · intro k hk1 hk2 f hf
+                exact cS k ((mem_yearsNear _ _ _).2 ⟨hk1, hk2⟩) _ (by simp [proj, exact_inst k f true hf])
+              · intro k hk1 hk2 f hf
+                exact cE k ((mem_yearsNear _ _ _).2 ⟨hk1, hk2⟩) _ (by simp [proj, exact_inst k f false hf])
+        · have hy := year_window h1 h2
+          have hw := yearSpan_bounds so eo hss hes
+          apply dated_yearless_eq s so e eo d hs he hsy hey hns h1 h2
+          apply windowOK_of_inY _ _ _ _ _ hw.1 (inY_year d)
+          · intro k a b
+            obtain ⟨p, hp⟩ := proj_some_yearless s so true ws hsy k (by omega)
+            have := cS k ((mem_yearsNear _ _ _).2 ⟨a, b⟩) p hp
+            simpa [projT, hp] using this
+          · intro k a b
+            obtain ⟨p, hp⟩ := proj_some_yearless e eo false we hey k (by omega)
+            have := cE k ((mem_yearsNear _ _ _).2 ⟨a, b⟩) p hp
+            simpa [projT, hp] using this
+      · have hns : ¬ (s = e ∧ isFixedDate s = true) := by
+          rintro ⟨rfl, hfx⟩
+          rcases hnsb with h | h
+          · simp at h
+          · rw [hfx] at h; cases h
+        exact dated_yearless_eq s so e eo d hs he hsy hey hns h1 h2 hW
   | some sy =>
     cases hey : specYear e with
     | none =>
@@ -98,11 +152,7 @@ theorem dated_eq_of_safe (s : DateSpec) (so : DateOffset) (e : DateSpec) (eo : D
           cases yr with
           | none => simp [specYear] at hsy
           | some n =>
-            have hn : 1900 ≤ n ∧ n ≤ 9999 := by
-              have := ws
-              simp only [DateSpec.wf, optYearOk, OH.Model.yearOk, Bool.and_eq_true, decide_eq_true_eq] at this
-              omega
-            exact dated_single_year_eq n m dd so eo d hn wso hss weo hes h1 h2
+            exact dated_single_year_eq n m dd so eo d wso weo
       · exact dated_year_year_eq s so e eo d hs he sy ey hsy hey hns h1 h2
 
 /-! ### rule-level classes: safe on every day -/
@@ -116,10 +166,12 @@ def easterSmall (ds : DateSpec) (o : DateOffset) : Bool :=
 /-- a bound whose shifted instances provably stay in their year, whatever the year -/
 def boundPlain (ds : DateSpec) (o : DateOffset) : Bool := noOffset o || easterSmall ds o
 
-theorem shift_noOffset (o : DateOffset) (h : noOffset o = true) (p : Int) : shift o p = p := by
+theorem shift_noOffset (o : DateOffset) (h : noOffset o = true) (p : Int)
+    (hp : minDay ≤ p ∧ p ≤ maxDay) : shift o p = p := by
   simp only [noOffset, Bool.and_eq_true, beq_iff_eq] at h
   unfold shift
   simp only [h.1, h.2]
+  rw [addDaysSat_eq (by omega) (by omega) (by omega)]
   omega
 
 theorem yearStart_mar22 (k : Int) : ymdRaw k 3 22 = yearStart (k + 1) - 284 := by
@@ -137,7 +189,8 @@ theorem boundPlain_stays (ds : DateSpec) (o : DateOffset) (after : Bool) (hwf : 
   have hin := dateInstance_year ds k after hwf hk.1 (by unfold maxYear; omega) q hq
   simp only [boundPlain, Bool.or_eq_true] at h
   rcases h with h | h
-  · rw [shift_noOffset o h]; exact hin
+  · have hr := inYear_range hk hin
+    rw [shift_noOffset o h q ⟨by rw [minDay_eq]; omega, by rw [maxDay_eq]; omega⟩]; exact hin
   · simp only [easterSmall, Bool.and_eq_true, decide_eq_true_eq] at h
     cases ds with
     | fixed yr m dd => simp at h
@@ -146,7 +199,8 @@ theorem boundPlain_stays (ds : DateSpec) (o : DateOffset) (after : Bool) (hwf : 
       simp only [dateInstance, he] at hq
       split at hq
       · cases hq
-        have sb := shift_bounds o q
+        have hr := inYear_range hk (inY_iff_year.2 hyd)
+        have sb := shift_bounds o q (by omega) (by rw [minDay_eq]; omega) (by rw [maxDay_eq]; omega)
         rw [yearStart_mar22] at lo
         rw [yearStart_apr25] at hi
         have hl := yearLen_cases k
@@ -161,13 +215,16 @@ theorem staysOn_of_plain (ds : DateSpec) (o : DateOffset) (after : Bool) (hwf : 
   intro k hk p hp
   exact boundPlain_stays ds o after hwf h k (hys k hk) p hp
 
-/-- Rule-level class (no reference to the day): the range has a defined meaning; bounds WITHOUT a
-year carry no offset (or are Easter shifted by at most 70 days); a bound WITH a year may carry any
-offset within ±100 000 days. -/
+/-- Rule-level class (no reference to the day): the range has a defined meaning; day offsets within
+±100 000 days; a bound WITH a year: nothing more; two bounds WITHOUT a year: they carry no offset (or
+are Easter shifted by at most 70 days), or — not a single day — the shifted bounds stay within about a
+year of their nominal year and occurrences are shorter than about a year (`datedWideB`); a yearless end
+after a start with a year: no offset (or Easter ± ≤ 70 days). -/
 def datedPlain (s : DateSpec) (so : DateOffset) (e : DateSpec) (eo : DateOffset) : Bool :=
   offSmallD so && offSmallD eo &&
   (match specYear s, specYear e with
-   | none, none => boundPlain s so && boundPlain e eo
+   | none, none => (boundPlain s so && boundPlain e eo)
+        || (!(s == e && isFixedDate s) && datedWideB s so e eo)
    | some _, none => boundPlain e eo
    | some _, some _ => true
    | none, some _ => false)
@@ -175,8 +232,8 @@ def datedPlain (s : DateSpec) (so : DateOffset) (e : DateSpec) (eo : DateOffset)
 theorem datedSafe_of_plain (s : DateSpec) (so : DateOffset) (e : DateSpec) (eo : DateOffset) (d : Int)
     (hwf : (MonthdayRange.date s so e eo).wf = true) (h : datedPlain s so e eo = true)
     (h1 : dateStart - 1 ≤ d) (h2 : d < dateEnd) : datedSafe s so e eo d = true := by
-  simp only [MonthdayRange.wf, Bool.and_eq_true] at hwf
-  obtain ⟨⟨⟨ws, _⟩, we⟩, _⟩ := hwf
+  simp only [MonthdayRange.wf, DateOffset.wf, Bool.and_eq_true] at hwf
+  obtain ⟨⟨⟨ws, ⟨wso, _⟩⟩, we⟩, ⟨weo, _⟩⟩ := hwf
   unfold datedPlain at h
   unfold datedSafe
   simp only [Bool.and_eq_true] at h ⊢
@@ -204,8 +261,15 @@ theorem datedSafe_of_plain (s : DateSpec) (so : DateOffset) (e : DateSpec) (eo :
   | none =>
     cases hey : specYear e with
     | none =>
-      simp only [hsy, hey, Bool.and_eq_true] at hcls ⊢
-      exact ⟨staysOn_of_plain s so true ws hcls.1 _ hys, staysOn_of_plain e eo false we hcls.2 _ hys⟩
+      simp only [hsy, hey, Bool.or_eq_true, Bool.and_eq_true] at hcls
+      simp only [Bool.or_eq_true, Bool.and_eq_true]
+      rcases hcls with hcls | hcls
+      · left
+        exact ⟨staysOn_of_plain s so true ws hcls.1 _ hys, staysOn_of_plain e eo false we hcls.2 _ hys⟩
+      · right
+        refine ⟨hcls.1, ?_⟩
+        rw [windowOKb_iff]
+        exact windowOK_of_wide s so e eo d ⟨ws, wso, hss⟩ ⟨we, weo, hes⟩ hsy hey hcls.2 h1 h2
     | some ey => simp [hsy, hey] at hcls
   | some sy =>
     cases hey : specYear e with
